@@ -16,6 +16,7 @@ import (
 // expectedMiss lists witnesses the checks are known not to catch, with the reason (DESIGN §9).
 var expectedMiss = map[string]string{
 	"seeded/C06-a": "targets the steps form, whose range is not decided by design (needs a relational loop invariant)",
+	"seeded/C12-b": "targets the nearest-neighbour choice inside util.FindClosest, which is not decided by design (functional correctness of the search)",
 }
 
 type variantResult struct {
@@ -69,7 +70,9 @@ func runVariant(exe, prop, repo, verif string, args ...string) variantResult {
 // (3) the witness catalogue: every seeded change and every reverted repair of
 // this property is applied in memory (packages.Config.Overlay) and must raise a
 // violation that is not a known finding. Witness results describe the checker;
-// only (1) can change the verdict on /repo.
+// only (1) can change the verdict on /repo. (4) the benign catalogue: behaviour-preserving
+// refactorings (benign/*/*.diff, written by independent sub-agents) applied in memory must
+// leave the verdict unchanged; an alarm there is a checker false alarm and is listed.
 func Thorough(c *Ctx, prop, repo, verif, exe string, res *report.Result, findings []report.Finding) map[string]interface{} {
 	out := map[string]interface{}{}
 	base := res.Summarise(findings)
@@ -94,6 +97,14 @@ func Thorough(c *Ctx, prop, repo, verif, exe string, res *report.Result, finding
 	for _, s := range revs {
 		jobs = append(jobs, job{"witness/" + strings.TrimSuffix(filepath.Base(s), ".patch"), []string{"-patch", s}, "witness"})
 	}
+	benign, _ := filepath.Glob(filepath.Join(verif, "benign", "*", "*.diff"))
+	sort.Strings(benign)
+	for _, s := range benign {
+		if strings.HasSuffix(s, ".tests.diff") {
+			continue
+		}
+		jobs = append(jobs, job{"benign/" + filepath.Base(filepath.Dir(s)) + "/" + strings.TrimSuffix(filepath.Base(s), ".diff"), []string{"-patch", s}, "benign"})
+	}
 	results := make([]variantResult, len(jobs))
 	sem := make(chan struct{}, 6)
 	var wg sync.WaitGroup
@@ -111,6 +122,8 @@ func Thorough(c *Ctx, prop, repo, verif, exe string, res *report.Result, finding
 	wg.Wait()
 
 	fired, expected, skipped := 0, 0, 0
+	benignTotal, benignSilent, benignSkipped := 0, 0, 0
+	var benignAlarms []variantResult
 	var witnessRes, configRes []variantResult
 	for i, j := range jobs {
 		r := results[i]
@@ -140,6 +153,17 @@ func Thorough(c *Ctx, prop, repo, verif, exe string, res *report.Result, finding
 			r.Note = fmt.Sprintf("cha-only alarms (need review, do not fail the check): %d", len(extra))
 			r.Keys = extra
 			configRes = append(configRes, r)
+		case "benign":
+			switch {
+			case r.Status != "ok":
+				benignSkipped++
+			case strings.Join(r.Keys, ";;") == baseKeys:
+				benignSilent++
+			default:
+				r.Note = "FALSE ALARM on a behaviour-preserving refactoring"
+				benignAlarms = append(benignAlarms, r)
+			}
+			benignTotal++
 		case "witness":
 			switch {
 			case r.Status == "patch-does-not-apply":
@@ -167,6 +191,11 @@ func Thorough(c *Ctx, prop, repo, verif, exe string, res *report.Result, finding
 	out["witnesses_skipped"] = skipped
 	out["witness_results"] = witnessRes
 	out["configuration_variants"] = configRes
+	out["benign_refactorings_total"] = benignTotal
+	out["benign_refactorings_silent"] = benignSilent
+	out["benign_refactorings_skipped"] = benignSkipped
+	out["benign_false_alarms"] = benignAlarms
+	fmt.Printf("[%s] thorough: behaviour-preserving refactorings silent %d/%d (skipped %d)\n", prop, benignSilent, benignTotal-benignSkipped, benignSkipped)
 	fmt.Printf("[%s] thorough: witnesses fired %d/%d (skipped %d); variants: %d\n", prop, fired, expected, skipped, len(configRes))
 	for _, w := range witnessRes {
 		fmt.Printf("[%s]   witness %-28s status=%s violations=%d %s %s\n", prop, w.Name, w.Status, w.Violations, strings.Join(w.Rules, ","), w.Note)
